@@ -161,6 +161,23 @@ def successor_rule(ck, F, P):
     if e0 is not None:
         txt = show(e0)
         ret_ok = "next(" in txt and "range(" in txt and "next_back" not in txt and "last(" not in txt
+    if not ret_ok:
+        # several definitions of the result (`let start = line.checked_add(1)?; range(start..).next().copied()`): every value
+        # returned, other than the propagated None, is the first element of the range
+        from lib import call_names_deep
+        vals = []
+        for d in b.defs().get(0, []):
+            if d[0] in ("call", "partial-call"):
+                c = d[2]
+                if c.callee.endswith("from_residual"):
+                    continue
+                vals.append(call_names_deep(b, ("call", c.callee, [b.expr(a) for a in c.args], c)) | {c.callee.split("::")[-1]})
+            elif d[0] in ("assign", "partial"):
+                e_ = b.rv_expr(d[3])
+                if e_[0] == "agg" and e_[2] == "None":
+                    continue
+                vals.append(call_names_deep(b, e_))
+        ret_ok = bool(vals) and all("next" in v and "range" in v and not (v & {"next_back", "last", "rev", "max"}) for v in vals)
     ck.require(ret_ok, "%s:SUCC:first-of-range" % P, "successor",
                "after() returns the first element of the range", "after() does not return range(..).next(): %s"
                % (show(e0) if e0 else "?"), b.span)
@@ -197,6 +214,14 @@ def _classify_plus_one(body, st):
         a, b_ = strip_expr(st[2]), strip_expr(st[3])
         if a == ("param", 1) and b_[0] == "const" and b_[1].get("int") == 1:
             return "line + 1 (unchecked)", True, False
+    if st[0] == "place" and st[1][0] == "call" and st[1][1].endswith("::branch") and st[1][2] and \
+            any(p[0] == "field" and p[2] == "Continue" for p in st[4]):
+        # `line.checked_add(1)?`: the Continue payload of the Option's Try::branch is the Some payload
+        inner = strip_expr(st[1][2][0])
+        if inner[0] == "call" and inner[1].endswith("checked_add"):
+            args = inner[2]
+            if strip_expr(args[0]) == ("param", 1) and strip_expr(args[1])[0] == "const" and strip_expr(args[1])[1].get("int") == 1:
+                return "line.checked_add(1)? (None at u64::MAX)", True, True
     if st[0] == "place" and st[1][0] == "call" and st[1][1].endswith("checked_add"):
         args = st[1][2]
         if strip_expr(args[0]) == ("param", 1) and strip_expr(args[1])[0] == "const" and \
